@@ -12,3 +12,16 @@ PROPS = {
         ],
     },
 }
+_PKG = {
+    "n": {"quick": 1200, "thorough": 20000},
+    "per_shard": 40,
+    "corr_targets": ["Corr/PkgCorr.vo"],
+    "corr": "Corr/PkgCorr.v: Model.Pkg.step/render vs the projection of every saved package (relationships, parts, content types, section references, picture embeds, media bytes)",
+    "trusted_base": ["strings (part names, relationship ids and types) are abstracted to datatypes by harness/pkgabs.go"],
+    "assumptions": [
+        "archive/zip and encoding/xml are trusted to write/read what they are given; the independent reader uses them as tokeniser only",
+        "payloads of generated XML parts are opaque atoms in the model; their well-formedness is judged on the real bytes by the oracle",
+    ],
+}
+for _p in ("C01", "C02", "C04", "C10", "C11"):
+    PROPS[_p] = dict(_PKG)
